@@ -765,3 +765,204 @@ Proof. intros Hd Hp H1 H2. apply (from_string_of_parse _ r Hp). apply parse_rend
 Theorem roundtrip_string_prefixed opn cls r A w3 w2 : delims opn cls -> printable r -> all_ws w3 -> all_ws w2 ->
   from_string (A ++ ":"%char :: w3 ++ render opn cls r ++ w2) = POk r.
 Proof. intros Hd Hp H3 H2. apply (from_string_of_parse _ r Hp). apply parse_render_prefixed; try assumption. exact (proj1 Hp). Qed.
+
+(** * the round trip through a file *)
+Lemma split_lines : forall (ls : list str) cur, Forall (fun l => ~ In nl l) ls ->
+  split_on nl (List.concat (map (fun l => l ++ [nl]) ls)) cur =
+  match ls with [] => [rev cur] | l :: ls' => (rev cur ++ l) :: ls' ++ [[]] end.
+Proof.
+  induction ls as [|l ls IH]; intros cur H; [reflexivity|]. cbn [map List.concat]. rewrite <- app_assoc. cbn [app].
+  rewrite split_on_hit by exact (Forall_inv H). rewrite (IH [] (Forall_inv_tail H)). destruct ls; reflexivity.
+Qed.
+
+Lemma drop_bs_nl_unfold a b t :
+  drop_bs_nl (a :: b :: t) = if Ascii.eqb a "\"%char && Ascii.eqb b nl then drop_bs_nl t else a :: drop_bs_nl (b :: t).
+Proof. reflexivity. Qed.
+
+(** no backslash immediately followed by a newline *)
+Fixpoint nobs (s : str) : bool :=
+  match s with
+  | a :: ((b :: _) as t) => negb (Ascii.eqb a "\"%char && Ascii.eqb b nl) && nobs t
+  | _ => true
+  end.
+
+Lemma drop_bs_nl_id (s : str) : nobs s = true -> drop_bs_nl s = s.
+Proof.
+  induction s as [|a s IH]; intros H; [reflexivity|]. destruct s as [|b t]; [reflexivity|]. rewrite drop_bs_nl_unfold.
+  cbn [nobs] in H. apply andb_true_iff in H as [H1 H2]. apply negb_true_iff in H1. rewrite H1. f_equal. apply IH. exact H2.
+Qed.
+
+Lemma nobs_line : forall (l rest : str), ~ In nl l -> (exists t c, l = t ++ [c] /\ c <> "\"%char) -> nobs rest = true ->
+  nobs (l ++ nl :: rest) = true.
+Proof.
+  induction l as [|a l IH]; intros rest Hn (t & c & E & Hc) Hr; [destruct t; discriminate|].
+  destruct l as [|b l].
+  - destruct t as [|? [|? ?]]; try discriminate. inversion E; subst. cbn [app nobs].
+    rewrite (eqb_neq_false c _ Hc). cbn [andb negb]. destruct rest as [|r0 rest']; [reflexivity|].
+    replace (Ascii.eqb nl "\"%char) with false by reflexivity. cbn [andb negb]. exact Hr.
+  - change ((a :: b :: l) ++ nl :: rest) with (a :: (b :: l) ++ nl :: rest). cbn [app nobs].
+    assert (Hb : Ascii.eqb b nl = false) by (apply eqb_neq_false; intros ->; apply Hn; right; left; reflexivity).
+    rewrite Hb, andb_false_r. cbn [negb andb]. apply (IH rest); [intros H; apply Hn; right; exact H| |exact Hr].
+    destruct t as [|t0 t']; [discriminate|]. inversion E; subst. exists t', c. split; [assumption|exact Hc].
+Qed.
+
+Lemma digits_us_digits : forall D acc prev, forallb is_digit D = true -> (D <> [] \/ prev = true) ->
+  digits_us D acc prev = Some (fold_left dstep D acc).
+Proof.
+  induction D as [|c D IH]; intros acc prev Hd Hne.
+  - cbn [digits_us fold_left]. destruct Hne as [H| ->]; [contradiction|reflexivity].
+  - cbn [forallb] in Hd. apply andb_true_iff in Hd as [Hc Hd]. cbn [digits_us fold_left]. rewrite Hc.
+    apply IH; [exact Hd|right; reflexivity].
+Qed.
+
+Lemma py_int_render z : 0 <= z -> py_int (render_int z) = Some z.
+Proof.
+  intros Hz. destruct (render_int_spec z Hz) as (Hne & Hd & Ev). unfold py_int.
+  rewrite (strip_good _ (gstr_good_name _ (digits_gstr _ Hne Hd))).
+  destruct (render_int z) as [|c t] eqn:E; [contradiction|].
+  assert (Hc : is_digit c = true) by (cbn [forallb] in Hd; apply andb_true_iff in Hd as [H _]; exact H).
+  assert (N1 : Ascii.eqb c "-"%char = false) by (destruct c as [[] [] [] [] [] [] [] []]; cbv in Hc |- *; congruence).
+  assert (N2 : Ascii.eqb c "+"%char = false) by (destruct c as [[] [] [] [] [] [] [] []]; cbv in Hc |- *; congruence).
+  rewrite N1, N2. rewrite digits_us_digits; [|exact Hd|left; discriminate]. rewrite <- int_of_fold, Ev. reflexivity.
+Qed.
+
+Lemma all_some_map_some {A} (l : list A) : all_some (map Some l) = Some l.
+Proof. induction l as [|a l IH]; [reflexivity|]. cbn [map all_some]. rewrite IH. reflexivity. Qed.
+
+Lemma all_some_none {A} (l : list (option A)) : In None l -> all_some l = None.
+Proof.
+  induction l as [|o l IH]; intros H; [destruct H|]. destruct H as [->|H]; [reflexivity|].
+  cbn [all_some]. destruct o; [rewrite (IH H); reflexivity|reflexivity].
+Qed.
+
+(** datasets that can be written to a file: every ranking printable, no newline inside a name, and the whole
+    dataset made of integers or of strings that Python's int() refuses *)
+Definition name_no_nl (x : name) : Prop := match x with NInt _ => True | NStr s => ~ In nl s end.
+Definition file_dataset (d : list (list (list name))) : Prop :=
+  Forall (fun r => okranking r /\ NoDup (List.concat r) /\ Forall (Forall name_no_nl) r) d /\
+  ((forall r b x, In r d -> In b r -> In x b -> exists z, x = NInt z) \/
+   (forall r b x, In r d -> In b r -> In x b -> exists s, x = NStr s /\ py_int s = None)).
+
+Notation line := (render "{"%char "}"%char).
+
+Lemma delims_brace : delims "{"%char "}"%char.
+Proof. left. split; reflexivity. Qed.
+
+Lemma line_no_nl r : okranking r -> Forall (Forall name_no_nl) r -> ~ In nl (line r).
+Proof.
+  intros Hr Hn Hin.
+  assert (Hne : Forall (fun b => b <> []) r) by (eapply Forall_impl; [|exact Hr]; intros b [H _]; exact H).
+  rewrite (render_txt _ _ r Hne) in Hin. apply in_txt in Hin as [H|[H|[H|[H|[H|(bd & Hb & Hc)]]]]]; try discriminate.
+  - unfold sep in H. destruct H as [H|[H|[]]]; discriminate.
+  - apply in_map_iff in Hb as (b & <- & Hb). apply in_join in Hc as [Hc|(sx & Hsx & Hc)].
+    + unfold sep in Hc. destruct Hc as [H|[H|[]]]; discriminate.
+    + apply in_map_iff in Hsx as (x & <- & Hx). rewrite Forall_forall in Hn. specialize (Hn b Hb). rewrite Forall_forall in Hn. specialize (Hn x Hx).
+      unfold okranking in Hr. rewrite Forall_forall in Hr. destruct (Hr b Hb) as [_ Ob]. rewrite Forall_forall in Ob. specialize (Ob x Hx).
+      destruct Ob as [z Hz|s Hs _]; cbn [render_name name_no_nl] in *; [|contradiction].
+      destruct (render_int_spec z Hz) as (_ & Hd & _). rewrite forallb_forall in Hd. specialize (Hd nl Hc). discriminate.
+Qed.
+
+Lemma keep_line_line r : okranking r -> keep_line (line r) = true.
+Proof.
+  intros Hr. unfold keep_line. apply andb_true_iff. split; [|reflexivity].
+  destruct r as [|b1 bs]; [reflexivity|]. apply orb_true_iff. left. apply Z.ltb_lt.
+  assert (Hne : Forall (fun b => b <> []) (b1 :: bs)) by (eapply Forall_impl; [|exact Hr]; intros b [H _]; exact H).
+  rewrite (render_txt _ _ _ Hne). cbn [map]. unfold txt. cbn [map]. rewrite join_tail. unfold btxt. lens.
+  pose proof (len_nonneg (body b1)). pose proof (len_nonneg (List.concat (map (fun y => sep ++ y) (map (btxt "{"%char "}"%char) (map body bs))))).
+  match goal with |- context [len (List.concat ?x)] => pose proof (len_nonneg (List.concat x)) end. lia.
+Qed.
+
+Lemma write_text_lines d : write_text d = List.concat (map (fun l => l ++ [nl]) (map line d)).
+Proof. unfold write_text. rewrite map_map. reflexivity. Qed.
+
+Lemma nobs_write d : Forall (fun r => okranking r /\ Forall (Forall name_no_nl) r) d -> nobs (write_text d) = true.
+Proof.
+  induction 1 as [|r d [Hr Hn] _ IH]; [reflexivity|]. unfold write_text in *. cbn [map List.concat]. rewrite <- app_assoc. cbn [app].
+  apply nobs_line; [apply line_no_nl; assumption| |exact IH].
+  destruct (render_ends "{"%char "}"%char r) as [_ (t & E)]. exists t, rb. split; [exact E|discriminate].
+Qed.
+
+Lemma file_lines_write d : Forall (fun r => okranking r /\ Forall (Forall name_no_nl) r) d ->
+  file_lines (write_text d) = map line d.
+Proof.
+  intros H. unfold file_lines. rewrite (drop_bs_nl_id _ (nobs_write d H)), write_text_lines.
+  rewrite split_lines by (rewrite Forall_map; eapply Forall_impl; [|exact H]; intros r [Hr Hn]; apply line_no_nl; assumption).
+  assert (K : filter keep_line (map line d) = map line d).
+  { clear -H. induction H as [|r d [Hr _] _ IH]; [reflexivity|]. cbn [map filter]. rewrite (keep_line_line r Hr), IH. reflexivity. }
+  destruct d as [|r d]; [reflexivity|]. cbn [map rev app].
+  change (line r :: map line d ++ [[]]) with ((line r :: map line d) ++ [[]]). rewrite filter_app. cbn [filter] in *. replace (keep_line []) with false by reflexivity. rewrite app_nil_r.
+  exact K.
+Qed.
+
+Lemma parse_lines_write d : Forall (fun r => okranking r) d ->
+  parse_lines (map line d) = POk (map (fun r => map (map rstr) r) d).
+Proof.
+  induction 1 as [|r d Hr _ IH]; [reflexivity|]. cbn [map parse_lines].
+  pose proof (parse_render "{"%char "}"%char r [] [] delims_brace Hr (Forall_nil _) (Forall_nil _)) as E. cbn [app] in E. rewrite app_nil_r in E.
+  rewrite E, IH. reflexivity.
+Qed.
+
+Lemma forallb_false_witness {A} (f : A -> bool) l x : In x l -> f x = false -> forallb f l = false.
+Proof.
+  intros Hx Fx. destruct (forallb f l) eqn:E; [|reflexivity]. rewrite forallb_forall in E. rewrite (E x Hx) in Fx. discriminate.
+Qed.
+
+Definition z_of (x : name) : Z := match x with NInt z => z | NStr _ => 0 end.
+
+Theorem roundtrip_file d : file_dataset d -> read_text (write_text d) = POk d.
+Proof.
+  intros (Hd & Hh).
+  assert (H1 : Forall (fun r => okranking r /\ Forall (Forall name_no_nl) r) d) by (eapply Forall_impl; [|exact Hd]; intros r (A & _ & B); split; assumption).
+  assert (H2 : Forall (fun r => okranking r) d) by (eapply Forall_impl; [|exact Hd]; intros r (A & _); exact A).
+  unfold read_text. rewrite (file_lines_write d H1), (parse_lines_write d H2). cbv zeta.
+  assert (Hok : forall r b x, In r d -> In b r -> In x b -> okname x).
+  { intros r b x Hr Hb Hx. rewrite Forall_forall in H2. specialize (H2 r Hr). unfold okranking in H2. rewrite Forall_forall in H2.
+    destruct (H2 b Hb) as [_ O]. rewrite Forall_forall in O. exact (O x Hx). }
+  assert (Nb : forall r b, In r d -> In b r -> NoDup b).
+  { intros r b Hr Hb. rewrite Forall_forall in Hd. destruct (Hd r Hr) as (_ & Nd & _).
+    apply in_split in Hb as (r1 & r2 & ->). rewrite concat_app in Nd. cbn [List.concat] in Nd.
+    destruct (NoDup_app_inv _ _ Nd) as (_ & N2 & _). destruct (NoDup_app_inv _ _ N2) as (N3 & _ & _). exact N3. }
+  assert (Dis : forallb (disjoint_buckets []) d = true).
+  { apply forallb_forall. intros r Hr. rewrite Forall_forall in Hd. destruct (Hd r Hr) as (_ & Nd & _). apply disjoint_nodup; [exact Nd|intros x _ []]. }
+  (* is there any element at all? *)
+  assert (IntCase : (forall r b x, In r d -> In b r -> In x b -> exists z, x = NInt z) ->
+    all_some (map (fun r => all_some (map (fun b => all_some (map py_int b)) r)) (map (fun r => map (map rstr) r) d)) = Some (map (map (map z_of)) d)).
+  { intros Hi. rewrite map_map. rewrite <- (all_some_map_some (map (map (map z_of)) d)). f_equal. rewrite map_map.
+    apply map_ext_in. intros r Hr. rewrite map_map. rewrite <- (all_some_map_some (map (map z_of) r)). f_equal. rewrite map_map.
+    apply map_ext_in. intros b Hb. rewrite map_map. rewrite <- (all_some_map_some (map z_of b)). f_equal. rewrite map_map.
+    apply map_ext_in. intros x Hx. destruct (Hi r b x Hr Hb Hx) as (z & ->). pose proof (Hok r b _ Hr Hb Hx) as O. inversion O; subst.
+    cbn [render_name z_of]. apply py_int_render. assumption. }
+  assert (IntDone : (forall r b x, In r d -> In b r -> In x b -> exists z, x = NInt z) ->
+    map (map (fun b => ndedup (map NInt b))) (map (map (map z_of)) d) = d).
+  { intros Hi. rewrite map_map. rewrite <- (map_id d) at 2. apply map_ext_in. intros r Hr. rewrite map_map. rewrite <- (map_id r) at 2.
+    apply map_ext_in. intros b Hb. rewrite map_map. rewrite (map_ext_in _ (fun x => x)); [rewrite map_id; apply ndedup_nodup; exact (Nb r b Hr Hb)|].
+    intros x Hx. destruct (Hi r b x Hr Hb Hx) as (z & ->). reflexivity. }
+  destruct Hh as [Hi|Hs].
+  - rewrite (IntCase Hi), (IntDone Hi), Dis. reflexivity.
+  - destruct (List.concat (map (@List.concat name) d)) as [|x0 rest] eqn:Eel.
+    + (* no element at all: the integer reading succeeds vacuously *)
+      assert (Hi : forall r b x, In r d -> In b r -> In x b -> exists z, x = NInt z).
+      { intros r b x Hr Hb Hx. exfalso. assert (In x (List.concat (map (@List.concat name) d))) as Hin.
+        { apply in_concat. exists (List.concat r). split; [apply in_map; exact Hr|apply in_concat; exists b; split; assumption]. }
+        rewrite Eel in Hin. destruct Hin. }
+      rewrite (IntCase Hi), (IntDone Hi), Dis. reflexivity.
+    + assert (In x0 (List.concat (map (@List.concat name) d))) as Hin by (rewrite Eel; left; reflexivity).
+      apply in_concat in Hin as (cr & Hcr & Hx0). apply in_map_iff in Hcr as (r0 & <- & Hr0). apply in_concat in Hx0 as (b0 & Hb0 & Hx0).
+      destruct (Hs r0 b0 x0 Hr0 Hb0 Hx0) as (s0 & -> & Pn0). pose proof (Hok r0 b0 _ Hr0 Hb0 Hx0) as O0. inversion O0 as [|? G0 D0]; subst.
+      (* the integer reading fails *)
+      assert (Enone : all_some (map (fun r => all_some (map (fun b => all_some (map py_int b)) r)) (map (fun r => map (map rstr) r) d)) = None).
+      { apply all_some_none. rewrite map_map. apply in_map_iff. exists r0. split; [|exact Hr0].
+        apply all_some_none. rewrite map_map. apply in_map_iff. exists b0. split; [|exact Hb0].
+        apply all_some_none. rewrite map_map. apply in_map_iff. exists (NStr s0). split; [exact Pn0|exact Hx0]. }
+      rewrite Enone.
+      assert (Ealld : forallb (fun r => forallb (fun b => forallb isdigit b) r) (map (fun r => map (map rstr) r) d) = false).
+      { apply (forallb_false_witness _ _ (map (map rstr) r0)); [apply in_map_iff; exists r0; split; [reflexivity|exact Hr0]|].
+        apply (forallb_false_witness _ _ (map rstr b0)); [apply in_map; exact Hb0|].
+        apply (forallb_false_witness _ _ s0); [change s0 with (rstr (NStr s0)); apply in_map; exact Hx0|exact D0]. }
+      rewrite Ealld.
+      assert (En : map (map (fun b => ndedup (map (fun e => NStr e) b))) (map (fun r => map (map rstr) r) d) = d).
+      { rewrite map_map. rewrite <- (map_id d) at 2. apply map_ext_in. intros r Hr. rewrite map_map. rewrite <- (map_id r) at 2.
+        apply map_ext_in. intros b Hb. rewrite map_map. rewrite (map_ext_in _ (fun x => x)); [rewrite map_id; apply ndedup_nodup; exact (Nb r b Hr Hb)|].
+        intros x Hx. destruct (Hs r b x Hr Hb Hx) as (s & -> & _). reflexivity. }
+      cbv zeta. rewrite En, Dis. reflexivity.
+Qed.
